@@ -87,7 +87,7 @@ pub fn determinism(name: &str, wasm: &[u8], out: &mut Vec<Json>) {
 /// C14: configuration switches.
 pub fn config(name: &str, wasm: &[u8], out: &mut Vec<Json>) {
     // DWARF: debug sections are carried over exactly when generate_dwarf is on, whatever the other switches say
-    if let Ok(a0) = amod::decode(wasm) { if !a0.code.is_empty() && a0.code.len() < 40 { if let Some(input) = crate::c10::synthesize(wasm, &a0, crate::c10::DCfg { version: 4, one_seq: false, file0: false, pair_seq: false }) {
+    if let Ok(a0) = amod::decode(wasm) { if !a0.code.is_empty() && a0.code.len() < 40 { if let Some(input) = crate::c10::synthesize(wasm, &a0, crate::c10::DCfg { version: 4, one_seq: false, file0: false, pair_seq: false, nested: false, two_units: false }) {
         for (gd, pct, names) in [(false, false, true), (false, true, true), (true, false, false), (true, true, true), (false, true, false)] {
             let r = catch(|| { let mut c = ModuleConfig::new(); c.generate_dwarf(gd).preserve_code_transform(pct).generate_name_section(names).generate_producers_section(false); let mut m = c.parse(&input).ok()?; amod::decode(&m.emit_wasm()).ok() }).flatten();
             if let Some(b) = r { let has = b.customs.iter().any(|c| c.0.starts_with(".debug")); if has != gd { out.push(v("dwarf-switch-ignored", "C14", format!("{}: generate_dwarf({}) preserve_code_transform({}) generate_name_section({}): the output {} .debug sections", name, gd, pct, names, if has { "has" } else { "has no" }), &input, format!("{:?}", b.sections), String::new())); } } } } } }
